@@ -1309,7 +1309,8 @@ class PyFat(object):
             free_count = (total_sectors_32 - rsvd_sec_cnt -
                           number_of_fats * self._fat_size) // sec_per_clus - 1
             fsinfo = FSInfo(free_count=free_count, next_free=2)
-            self.__seek(512)
+            fsinfo_offset = self.bpb_header["BPB_FSInfo"] * sector_size
+            self.__seek(fsinfo_offset)
             self.__fp.write(bytes(fsinfo))
 
             first_cluster = self.allocate_bytes(
@@ -1325,7 +1326,7 @@ class PyFat(object):
             self.__seek(len(self.bpb_header) + backup_offset)
             self.__fp.write(boot_code)
 
-            self.__seek(512 + backup_offset)
+            self.__seek(fsinfo_offset + backup_offset)
             self.__fp.write(bytes(fsinfo))
 
         self.parse_root_dir()
